@@ -556,7 +556,7 @@ pub fn eval_case(prop: &str, case: &Case, oracles: &[Oracle], st: &mut Stats, de
         // a library Subject used as the source must not hold more observers than are needed
         for step in 0..case.acts.len() {
           for (si, k) in case.srcs.iter().enumerate() {
-            if *k == SrcKind::Subject {
+            if matches!(k, SrcKind::Subject | SrcKind::BehaviorSubject | SrcKind::ReplaySubject) {
               let (have, want) = (real.held[step][si], r.held[step][si]);
               if have > want {
                 st.add_finding(
